@@ -33,9 +33,11 @@ Record style := mkstyle {
   st_quote : option quote;   (* KEY: quote demarcation; SEARCH: demarcation of the term *)
   st_bracket : bool;         (* ANCHOR: [&name] instead of &name *)
   st_prefix : bool;          (* SEARCH: inversion as [!attr OP term] instead of [attr!OP term] *)
-  st_delim : ascii           (* SEARCH by =~ : the delimiter *)
+  st_delim : ascii;          (* SEARCH by =~ : the delimiter *)
+  st_nest : bool             (* SEARCH, quote-demarcated term: the OTHER quote character is written
+                                bare, in pairs (a nested demarcation: [b="'x'"]) *)
 }.
-Definition plain_style : style := mkstyle None false false "/"%char.
+Definition plain_style : style := mkstyle None false false "/"%char false.
 Definition sseg : Type := (seg * style)%type.
 
 (* back-slash every occurrence of a special symbol, left to right *)
@@ -56,6 +58,19 @@ Definition quoted_specials : list ascii :=
    no meaning inside [...]) and the operator symbols *)
 Definition operand_specials : list ascii :=
   ["\"; "("; ")"; "["; "]"; "^"; "$"; "%"; " "; "'"; """"; "="; "!"; ">"; "<"; "~"]%char.
+(* README: embedded, SINGLE quote characters must be escaped lest they be
+   deemed unmatched demarcation pairings -- inside a quote pair the OTHER
+   quote character opens a nested pair; written in pairs it needs no
+   back-slash *)
+Definition other_quote (q : quote) : quote := match q with SQ => DQ | DQ => SQ end.
+Definition nest_specials (q : quote) : list ascii :=
+  ["\"; qchar q; "("; ")"; "["; "]"]%char.
+(* what the writer back-slashes in the term of a search *)
+Definition term_specials (st : style) : list ascii :=
+  match st_quote st with
+  | None => operand_specials
+  | Some q => if st_nest st then nest_specials q else quoted_specials
+  end.
 Definition param_specials : list ascii :=
   ["\"; "("; ")"; "["; "]"; " "; "'"; """"]%char.
 
@@ -105,8 +120,8 @@ Definition body (sepc : ascii) (x : sseg) : string :=
           ++ match m with
              | MRegex => c1 (st_delim st) ++ term ++ c1 (st_delim st)
              | _ => match st_quote st with
-                    | None => esc_with operand_specials term
-                    | Some q => c1 (qchar q) ++ esc_with quoted_specials term ++ c1 (qchar q)
+                    | None => esc_with (term_specials st) term
+                    | Some q => c1 (qchar q) ++ esc_with (term_specials st) term ++ c1 (qchar q)
                     end
              end
           ++ "]"
@@ -144,13 +159,21 @@ Definition is_name_char (c : ascii) : bool := is_word c || Ascii.eqb c "-"%char.
 Definition is_slice_char (c : ascii) : bool := is_name_char c || Ascii.eqb c ":"%char.
 
 (* a term that starts and ends with the same quote character.  The parser
-   used to strip such a term even when its quotes were escaped (finding F21,
-   repaired); SearchTerms.__str__ still writes it without escaping the quotes,
-   so the clauses that go through str() keep the guard (wfc_seg) *)
+   used to strip such a term even when its quotes were escaped, and
+   SearchTerms.__str__ wrote it without escaping the quotes (finding F21, both
+   halves repaired): no guard uses it any more; the proofs use it to say when
+   the parser's undemarcation is the identity *)
 Definition quote_wrapped (s : string) : bool :=
   match first_char s, last_char s with
   | Some a, Some b => (Ascii.eqb a "'"%char || Ascii.eqb a """"%char) && Ascii.eqb a b
   | _, _ => false
+  end.
+
+(* the occurrences of [c] pair up (a nested demarcation is closed again) *)
+Fixpoint pairs_close (c : ascii) (open : bool) (s : string) : bool :=
+  match s with
+  | EmptyString => negb open
+  | String d r => pairs_close c (if Ascii.eqb d c then negb open else open) r
   end.
 
 (* inner expression of a collector: opaque text whose parentheses balance;
@@ -197,7 +220,10 @@ Definition wf_seg (prev_coll : bool) (x : sseg) : bool :=
          | MRegex =>
              negb (str_in (st_delim st) term)
              && negb (Ascii.eqb (st_delim st) " "%char) && negb (Ascii.eqb (st_delim st) "\"%char)
-         | _ => true
+         | _ => match st_quote st with
+                | Some q => negb (st_nest st) || pairs_close (qchar (other_quote q)) false term
+                | None => true
+                end
          end
   | (Some TKeywordSearch, AKeyword inv k params) => true
   | (Some TCollector, ACollector op expr) =>
@@ -235,7 +261,7 @@ Fixpoint no_bs_before (syms : list ascii) (s : string) : bool :=
 
 Definition both_key_syms : list ascii :=
   ["."; "/"; "("; ")"; "["; "]"; "^"; "$"; "%"; " "; "'"; """"]%char.
-Definition term_syms : list ascii := [" "; "="; "^"; "$"; "%"; "!"; ">"; "<"; "~"]%char.
+Definition term_syms : list ascii := [" "; "="; "^"; "$"; "%"; "!"; ">"; "<"; "~"; "'"; """"]%char.
 Definition canon_delims : list ascii := ["/"; "|"; "#"; "@"; ","; ";"; ":"; "_"; "-"; "+"]%char.
 
 Definition wfc_seg (x : sseg) : bool :=
@@ -243,23 +269,14 @@ Definition wfc_seg (x : sseg) : bool :=
   match sg with
   | (Some TKey, AStr k) => negb (str_in "*"%char k) && no_bs_before both_key_syms k
   | (Some TSearch, ASearch inv m attr term) =>
-      negb (quote_wrapped term)                            (* F21 *)
-      && match m with
-         | MRegex => existsb (fun d => negb (str_in d term)) canon_delims
-         | _ => no_bs_before term_syms term
-         end
+      match m with
+      | MRegex => existsb (fun d => negb (str_in d term)) canon_delims
+      | _ => no_bs_before term_syms term
+      end
   | _ => true
   end.
 
 Definition wfc (sp : sep) (l : list sseg) : bool := wf sp l && forallb wfc_seg l.
-
-(* finding F23: __eq__ compares the canonical texts of the UNESCAPED segments,
-   where a dot escaped in dot notation keeps its back-slash *)
-Definition no_dot_key (x : sseg) : bool :=
-  match x with
-  | ((Some TKey, AStr k), _) => negb (str_in "."%char k)
-  | _ => true
-  end.
 
 (* the segments a styled sequence denotes *)
 Definition segs_of (l : list sseg) : list seg := map fst l.
